@@ -92,3 +92,9 @@ def probe_known(ctx, finding):
 from props import history as _history  # noqa: E402
 
 correspondence, search, replay = _history.attach(PID, correspondence, search, replay, pasts=['ended-inside-a-multi-byte-character', 'listing-failed-half-way', 'commands-before-login'])
+
+
+# somebody else's machine: the same small sessions in other environments, in child processes (props/envs.py)
+from props import envs as _envs  # noqa: E402
+
+correspondence, search, replay = _envs.attach(PID, correspondence, search, replay)
